@@ -16,6 +16,60 @@ Proof.
   - cbn [bonds app] in *. destruct Ha as [H1 H2]. split; [exact H1|]. eapply IH; eassumption.
 Qed.
 
+Theorem ring_error_lower_local (X : tensor R) (cores : list (tensor R)) l b aX :
+  bonds l cores l -> length cores = ndim X -> (0 < b)%nat -> (b < ndim X)%nat ->
+  ey_for (x_unfolding X b) (prod (firstn b (shape X))) (prod (skipn b (shape X)))
+         (l * nth 2 (shape (nth (b - 1) cores (mk [] []))) 0%nat) aX ->
+  tail2 Rops (l * nth 2 (shape (nth (b - 1) cores (mk [] []))) 0%nat) (snd3 aX) <= tr_err2 Rops X cores.
+Proof.
+  intros Hb Hlen Hb0 Hbn Hc.
+  set (s := shape X) in *. set (s1 := firstn b s) in *. set (s2 := skipn b s) in *.
+  unfold ndim in Hbn, Hlen. fold s in Hbn, Hlen.
+  set (A := firstn b cores). set (B := skipn b cores).
+  assert (Ecores : cores = A ++ B) by (symmetry; apply firstn_skipn).
+  assert (HlA : length A = b) by (unfold A; rewrite firstn_length; lia).
+  rewrite Ecores in Hb. destruct (bonds_app _ _ _ _ Hb) as (m & HbA & HbB).
+  assert (HneA : A <> []) by (intros E; rewrite E in HlA; simpl in HlA; lia).
+  assert (Hm : nth 2 (shape (nth (b - 1) cores (mk [] []))) 0%nat = m).
+  { rewrite Ecores. rewrite app_nth1 by lia. rewrite <- HlA at 1. apply (bonds_last_right A l m HneA HbA). }
+  rewrite Hm in *.
+  set (M := x_unfolding X b) in *.
+  set (P := fun row q => chain Rops A (q / m) (unravel s1 row) (q mod m)).
+  set (Q := fun q col => chain Rops B (q mod m) (unravel s2 col) (q / m)).
+  pose proof (Hc P Q) as Hey.
+  eapply Rle_trans; [exact Hey|]. apply Req_le.
+  unfold tr_err2. fold s. rewrite <- (firstn_skipn b s). fold s1 s2. rewrite sum_idx_app.
+  unfold sum_idx. apply (fsumn_ext Rops). intros row Hrow. apply (fsumn_ext Rops). intros col Hcol.
+  assert (Hi1 : inb s1 (unravel s1 row)) by (apply unravel_inb; exact Hrow).
+  assert (Hi2 : inb s2 (unravel s2 col)) by (apply unravel_inb; exact Hcol).
+  f_equal. cbn [fsub Rops]. f_equal.
+  - unfold M, x_unfolding, g, get. cbn [shape data]. fold s s1 s2. rewrite <- (firstn_skipn b s) at 1. fold s1 s2.
+    rewrite ravel_app by (rewrite (inb_length _ _ Hi1); reflexivity).
+    rewrite !ravel_unravel by assumption. cbn [ravel prod fold_right]. f_equal. lia.
+  - unfold tr_entry. rewrite Ecores.
+    assert (Hhd : nth 0 (shape (hd (mk [] []) (A ++ B))) 0%nat = l).
+    { destruct A as [|G A']; [contradiction|]. cbn [app hd]. cbn [bonds] in HbA. tauto. }
+    rewrite Hhd. rewrite (fsumn_mul Rops Rops_ring l m). apply (fsumn_ext Rops). intros a Ha.
+    rewrite (chain_app Rops Rops_ring A l m B a _ _ a HbA Ha).
+    + apply (fsumn_ext Rops). intros c Hcm. unfold P, Q.
+      rewrite Nat.add_comm, Nat.mod_add by lia. rewrite Nat.mod_small by exact Hcm.
+      rewrite Nat.add_comm, Nat.div_add_l by lia. rewrite Nat.div_small by exact Hcm. rewrite Nat.add_0_r. reflexivity.
+    + rewrite (inb_length _ _ Hi1). unfold s1. rewrite firstn_length. lia.
+Qed.
+
+(* all hypotheses of the local lower bound discharged jointly: X = diag(2, 1), a ring of two cores with closing bond 1
+   (the cores tensor_ring returns for the request (1,1,1), start mode 0), the cut after one mode *)
+Example ring_error_lower_nonvacuous :
+  let cores := [mk [1; 2; 1]%nat [1; 0]; mk [1; 2; 1]%nat [2; 0]] in
+  bonds 1 cores 1 /\ length cores = ndim ey_M /\
+  svd_sorted_contract (x_unfolding ey_M 1) 2 2 (1 * 1) ey_a /\
+  tail2 Rops (1 * 1) (snd3 ey_a) <= tr_err2 Rops ey_M cores.
+Proof.
+  intros cores. split; [cbn; auto|]. split; [reflexivity|]. split; [exact ey_instance_contract|].
+  change (tail2 Rops (1 * nth 2 (shape (nth (1 - 1) cores (mk [] []))) 0%nat) (snd3 ey_a) <= tr_err2 Rops ey_M cores).
+  apply (ring_error_lower_local ey_M cores 1%nat 1%nat ey_a); [cbn; auto | reflexivity | lia | cbn; lia | exact ey_instance_holds].
+Qed.
+
 Section TRPartial.
 Variable svd : nat -> tensor R -> @svdans R.
 
@@ -50,59 +104,18 @@ Proof.
     rewrite app_length. apply (f_equal (@length _)) in Efs. rewrite app_length in Efs. fold n. lia.
 Qed.
 
-Theorem ring_error_lower_partial (eckart_young : eckart_young_stmt) (X : tensor R) (cores : list (tensor R)) l b aX :
-  bonds l cores l -> length cores = ndim X -> (0 < b)%nat -> (b < ndim X)%nat ->
-  svd_full_contract (x_unfolding X b) (prod (firstn b (shape X))) (prod (skipn b (shape X)))
-                    (l * nth 2 (shape (nth (b - 1) cores (mk [] []))) 0%nat) aX ->
-  tail2 Rops (l * nth 2 (shape (nth (b - 1) cores (mk [] []))) 0%nat) (snd3 aX) <= tr_err2 Rops X cores.
-Proof.
-  intros Hb Hlen Hb0 Hbn Hc.
-  set (s := shape X) in *. set (s1 := firstn b s) in *. set (s2 := skipn b s) in *.
-  unfold ndim in Hbn, Hlen. fold s in Hbn, Hlen.
-  set (A := firstn b cores). set (B := skipn b cores).
-  assert (Ecores : cores = A ++ B) by (symmetry; apply firstn_skipn).
-  assert (HlA : length A = b) by (unfold A; rewrite firstn_length; lia).
-  rewrite Ecores in Hb. destruct (bonds_app _ _ _ _ Hb) as (m & HbA & HbB).
-  assert (HneA : A <> []) by (intros E; rewrite E in HlA; simpl in HlA; lia).
-  assert (Hm : nth 2 (shape (nth (b - 1) cores (mk [] []))) 0%nat = m).
-  { rewrite Ecores. rewrite app_nth1 by lia. rewrite <- HlA at 1. apply (bonds_last_right A l m HneA HbA). }
-  rewrite Hm in *.
-  set (M := x_unfolding X b) in *.
-  set (P := fun row q => chain Rops A (q / m) (unravel s1 row) (q mod m)).
-  set (Q := fun q col => chain Rops B (q mod m) (unravel s2 col) (q / m)).
-  pose proof (eckart_young M (prod s1) (prod s2) (l * m)%nat aX P Q Hc) as Hey.
-  eapply Rle_trans; [exact Hey|]. apply Req_le.
-  unfold tr_err2. fold s. rewrite <- (firstn_skipn b s). fold s1 s2. rewrite sum_idx_app.
-  unfold sum_idx. apply (fsumn_ext Rops). intros row Hrow. apply (fsumn_ext Rops). intros col Hcol.
-  assert (Hi1 : inb s1 (unravel s1 row)) by (apply unravel_inb; exact Hrow).
-  assert (Hi2 : inb s2 (unravel s2 col)) by (apply unravel_inb; exact Hcol).
-  f_equal. cbn [fsub Rops]. f_equal.
-  - unfold M, x_unfolding, g, get. cbn [shape data]. fold s s1 s2. rewrite <- (firstn_skipn b s) at 1. fold s1 s2.
-    rewrite ravel_app by (rewrite (inb_length _ _ Hi1); reflexivity).
-    rewrite !ravel_unravel by assumption. cbn [ravel prod fold_right]. f_equal. lia.
-  - unfold tr_entry. rewrite Ecores.
-    assert (Hhd : nth 0 (shape (hd (mk [] []) (A ++ B))) 0%nat = l).
-    { destruct A as [|G A']; [contradiction|]. cbn [app hd]. cbn [bonds] in HbA. tauto. }
-    rewrite Hhd. rewrite (fsumn_mul Rops Rops_ring l m). apply (fsumn_ext Rops). intros a Ha.
-    rewrite (chain_app Rops Rops_ring A l m B a _ _ a HbA Ha).
-    + apply (fsumn_ext Rops). intros c Hcm. unfold P, Q.
-      rewrite Nat.add_comm, Nat.mod_add by lia. rewrite Nat.mod_small by exact Hcm.
-      rewrite Nat.add_comm, Nat.div_add_l by lia. rewrite Nat.div_small by exact Hcm. rewrite Nat.add_0_r. reflexivity.
-    + rewrite (inb_length _ _ Hi1). unfold s1. rewrite firstn_length. lia.
-Qed.
-
 (* tensor_ring: for every cut after b modes *)
 Theorem tensor_ring_error_lower_partial (eckart_young : eckart_young_stmt) X rank mode cores :
   tensor_ring Rops svd X rank mode = Ok cores ->
   exists l, bonds l cores l /\
     forall b aX, (0 < b)%nat -> (b < ndim X)%nat ->
-      svd_full_contract (x_unfolding X b) (prod (firstn b (shape X))) (prod (skipn b (shape X)))
+      svd_sorted_contract (x_unfolding X b) (prod (firstn b (shape X))) (prod (skipn b (shape X)))
                         (l * nth 2 (shape (nth (b - 1) cores (mk [] []))) 0%nat) aX ->
       tail2 Rops (l * nth 2 (shape (nth (b - 1) cores (mk [] []))) 0%nat) (snd3 aX) <= tr_err2 Rops X cores.
 Proof.
   intros Hrun. destruct (tensor_ring_bonds X rank mode cores Hrun) as (l & Hb & Hlen).
   exists l. split; [exact Hb|]. intros b aX H0 H1 Hc.
-  exact (ring_error_lower_partial eckart_young X cores l b aX Hb Hlen H0 H1 Hc).
+  exact (ring_error_lower_local X cores l b aX Hb Hlen H0 H1 (eckart_young _ _ _ _ _ Hc)).
 Qed.
 
 End TRPartial.
